@@ -53,3 +53,14 @@ Proof.
   destruct (param_on sk), (param_on al); cbn; auto.
 Qed.
 Print Assumptions C12_query_parameters_select_their_own_option.
+
+(* per-run obligation on file.go and the read loop: File.SetValidation stores exactly the options it is
+   given (nil is the only argument it ignores, so an all-false option set does replace an earlier one),
+   the IncomingFile / OutgoingFile presets only set AllowMissingSenderSupplied, and the reader applies
+   the options of ReadWithOpts after the message is assembled: the options a message is validated and
+   written under are the ones last supplied. Stream l5-props (options-routes-agree) is the search. *)
+From WireGen Require Reader.
+Theorem C12_last_supplied_options_are_the_ones_used :
+  Reader.file_presets_ok = true /\ Reader.read_loop_recognised = true /\ Reader.read_entry_points_ok = true.
+Proof. vm_compute. repeat split; reflexivity. Qed.
+Print Assumptions C12_last_supplied_options_are_the_ones_used.
